@@ -4,8 +4,8 @@ package main
 
 import (
 	"fmt"
-	"reflect"
 	"net/netip"
+	"reflect"
 	"sort"
 	"strings"
 
@@ -17,20 +17,20 @@ import (
 
 // Address universe: small blocks so that exhaustion, sharing and boundary cases are common.
 var addrUniverse = []string{
-	"10.0.0.0/30",           // contains .0
-	"10.0.0.4/30",           //
-	"10.0.0.8-10.0.0.9",     // range notation
-	"10.0.0.254-10.0.1.1",   // crosses .255/.0
-	"10.0.1.16/31",          //
-	"10.0.1.32/32",          //
-	"10.0.1.255/32",         // a /32 on a buggy address
-	"fd00::/126",            //
-	"fd00::10-fd00::11",     //
-	"fd00:0:0:1::/127",      //
-	"fd00:0:0:2::1/128",     //
-	"10.0.0.0/29",           // overlaps the first two (invalid when combined)
-	"fd00:1::/64",           // astronomically large (only with knob huge)
-	"fd00:2::/120",          // combined with the huge one
+	"10.0.0.0/30",         // contains .0
+	"10.0.0.4/30",         //
+	"10.0.0.8-10.0.0.9",   // range notation
+	"10.0.0.254-10.0.1.1", // crosses .255/.0
+	"10.0.1.16/31",        //
+	"10.0.1.32/32",        //
+	"10.0.1.255/32",       // a /32 on a buggy address
+	"fd00::/126",          //
+	"fd00::10-fd00::11",   //
+	"fd00:0:0:1::/127",    //
+	"fd00:0:0:2::1/128",   //
+	"10.0.0.0/29",         // overlaps the first two (invalid when combined)
+	"fd00:1::/64",         // astronomically large (only with knob huge)
+	"fd00:2::/120",        // combined with the huge one
 }
 
 var svcNames = []string{"s1", "s2", "s3", "s4", "s5", "s6", "s7", "s8", "s9", "s10"}
@@ -46,7 +46,7 @@ var portUniverse = []portDef{{v1.ProtocolTCP, 80}, {v1.ProtocolTCP, 443}, {v1.Pr
 
 func (w *world) pick(n int, label string) int { return w.ch.Intn(n, label) }
 
-func (w *world) svcKeys() []string { return w.srv.Keys("Service") }
+func (w *world) svcKeys() []string  { return w.srv.Keys("Service") }
 func (w *world) poolKeys() []string { return w.srv.Keys("IPAddressPool") }
 
 func (w *world) getSvc(key string) *v1.Service {
@@ -457,9 +457,6 @@ func (w *world) freeEntries(allowOverlap bool) []string {
 				continue
 			}
 		case "10.0.1.255/32":
-			if w.k.avoidKnown {
-				continue
-			}
 		}
 		out = append(out, e)
 	}
@@ -645,9 +642,6 @@ func (w *world) envOp() {
 		case r < 9:
 			ok = w.opUpdateService()
 		case r < 11:
-			if w.k.avoidKnown && !(w.inc.started && w.inc.svcRec.VerifInitialLoadPerformed()) {
-				break // listed finding: deletions are dropped while the initial-load gate is closed
-			}
 			ok = w.opDeleteService()
 		case r < 14:
 			ok = w.opCreatePool()
